@@ -134,7 +134,9 @@ def scenarios(draw):
     return {'seed': draw(st.integers(0, 9999)), 'mode': mode, 'peering': peering, 'spec': spec, 'crd_present': draw(st.booleans()) or True, 'third': third,
             'pre': pre, 'actions': actions, 'warmup': draw(st.sampled_from([0.0, 0.5, 2.0])), 'gc': draw(st.sampled_from(['never', 'never', 'per-action'])),
             # where the cluster's resource versions start: the history may cross a power of ten (versions are opaque strings; '1000' < '999' as strings)
-            'rv0': draw(st.sampled_from([100, 100, 985, 9990, 7]))}
+            'rv0': draw(st.sampled_from([100, 100, 985, 9990, 7])),
+            # how the bytes of the watch streams are cut into network reads
+            'chunking': draw(st.sampled_from([None, None, 'newline-apart', 'halves', 'thirds']))}
 
 
 # ------------------------------------------------------------------------------------------ interpreter
@@ -146,6 +148,7 @@ class Run:
                                   ResDef('kopf.dev', 'v1', 'clusterkopfpeerings', 'ClusterKopfPeering', namespaced=False)],
                        seed=sc.get('seed', 0), rv=sc.get('rv0', 100))
         self.c = self.sim.cluster
+        self.c.chunking = sc.get('chunking')
         if sc.get('third'):
             self.c.add_resource(ResDef(*K3, 'KopfThird', namespaced=False, shortnames=('kth',)))
             self.c.create(K3, None, 't0', {'spec': {'f': 0}})
